@@ -2,7 +2,7 @@
 EXTENDS Summary
 CONSTANT MaxLen
 Sym(s, idx) == CASE s = 1 -> [k |-> "R", ty |-> 31, el |-> 1, vcp |-> 0, tm |-> idx, ps |-> {"REF"}]
-                 [] s = 2 -> [k |-> "R", ty |-> 31, el |-> 2, vcp |-> 0, tm |-> idx, ps |-> {"REF", "VEL"}]
+                 [] s = 2 -> [k |-> "R", ty |-> 31, el |-> 2, vcp |-> 0, tm |-> 20 - idx, ps |-> {"REF", "VEL"}]      \* times running backwards
                  [] s = 3 -> [k |-> "R", ty |-> 31, el |-> 1, vcp |-> 212, tm |-> idx, ps |-> {}]
                  [] s = 4 -> [k |-> "S", ty |-> 2, el |-> None, vcp |-> 0, tm |-> IF idx = 2 THEN 0 ELSE idx, ps |-> {}]
                  [] s = 5 -> [k |-> "V", ty |-> 5, el |-> None, vcp |-> 0, tm |-> idx, ps |-> {}]
